@@ -96,7 +96,8 @@ def rule_pagination(ck):
     w = whiles[0]
     reg = cfg.loop_region(w)
     # the item loop: a `for` over <page>['_items'] that yields
-    fors = [n for n in reg if n.kind == "for" and (canon(n.stmt.iter).endswith("['_items']") or canon(fl.expand(n.stmt.iter, n)).endswith("['_items']"))]
+    from ..rules import uncopy_deep
+    fors = [n for n in reg if n.kind == "for" and (canon(uncopy_deep(n.stmt.iter)).endswith("['_items']") or canon(uncopy_deep(fl.expand(n.stmt.iter, n))).endswith("['_items']"))]
     ck.require(len(fors) == 1, "C20.R2", f, fors[0].stmt.iter if fors else "for s in payload['_items']", ok="iterates the items of the page", bad=f"{len(fors)} loops over a page's '_items' (need 1)",
                sink="page:items")
     if len(fors) != 1:
@@ -154,9 +155,10 @@ def rule_pagination(ck):
         exits.append([s_ for s_ in w.succ if s_.kind == "edge" and s_.label is False][0])
     ck.require(bool(exits), "C20.R2", f, w.expr, ok="the pagination terminates", bad="`while True` without an exit", sink="page:exit-exists")
     for x in exits:
-        if x.kind == "return":
-            ck.violation("C20.R2", f, x.stmt, "the generator returns from inside the pagination loop", sink="page:return")
+        if x.kind == "return" and x.expr is not None and not (isinstance(x.expr, ast.Constant) and x.expr.value is None):
+            ck.violation("C20.R2", f, x.stmt, "the generator returns a value from inside the pagination loop", sink="page:return")
             continue
+        # a bare `return` in a generator ends the iteration like leaving the loop does: judged like any other exit
         facts = facts_at(fl, x) if x.kind != "edge" else (facts_at(fl, x.test) + edge_facts(x.test.expr, x.label))
         at = x if x.kind != "edge" else x.test
         impossible = False
@@ -236,12 +238,29 @@ def _entry(e):
     return None
 
 
+_REPO = [None]
+
+
 def query_entries(fl, f, join_call, node):
     """[(key, value expr, [condition atoms (ast, truth)])] of the list joined by '&'.join(<list>) - the list may be built by appends under
     `if`s, or be a comprehension over a literal list of (key, value) pairs with a filter"""
     arg = join_call.args[0]
     out = []
     ex = fl.expand(arg, node)
+    if isinstance(ex, (ast.GeneratorExp, ast.ListComp)) and len(ex.generators) == 1 and not (isinstance(ex, ast.ListComp) and isinstance(ex.generators[0].iter, (ast.List, ast.Tuple))):
+        # any other comprehension over a literal table (a generator, the items of a literal mapping, ...): evaluated row by row
+        class _CK:
+            pass
+        ck_ = _CK()
+        ck_.repo = _REPO[0]
+        els = conditional_elements(ck_, fl, f, arg, node) if _REPO[0] is not None else None
+        if els is not None:
+            for e_, conds in els:
+                ent = _entry(e_)
+                if ent is None:
+                    raise AnalysisError(f"{f.qual}: query argument not recognised: {src(e_, 80)}")
+                out.append((ent[0], ent[1], conds))
+            return out
     if isinstance(ex, ast.ListComp) and len(ex.generators) == 1 and isinstance(ex.generators[0].iter, (ast.List, ast.Tuple)):
         g = ex.generators[0]
         for item in g.iter.elts:
@@ -307,6 +326,10 @@ def conditional_elements(ck, fl, f, value, node):
         it = g.iter
         while isinstance(it, ast.Call) and call_name(it) in ("list", "tuple") and len(it.args) == 1:
             it = it.args[0]
+        # D.items() of a literal mapping: its (key, value) rows in the order written
+        if isinstance(it, ast.Call) and call_name(it) == "items" and isinstance(it.func, ast.Attribute) and not it.args and isinstance(it.func.value, ast.Dict) \
+                and all(k is not None for k in it.func.value.keys):
+            it = ast.Tuple(elts=[ast.Tuple(elts=[k, v], ctx=ast.Load()) for k, v in zip(it.func.value.keys, it.func.value.values)], ctx=ast.Load())
         if not isinstance(it, (ast.List, ast.Tuple)):
             return None
         out = []
@@ -387,6 +410,7 @@ def rule_params(ck):
     if len(joins) != 1:
         return
     jn, jc = joins[0]
+    _REPO[0] = repo
     entries = query_entries(fl, f, jc, jn)
     ck.count("query entries evaluated", len(entries))
     bykey = {}
